@@ -421,10 +421,6 @@ def judge_design(c, b, drv, per_valid, cap):
                 continue
             for name, fa in b.schema.fields(m["payload"]):
                 sub = c04.sub_att(b.schema, m["payload"], [name])
-                if locs.get(name) in ("header", "cookie") and b.schema.resolve(fa).get("has_default"):
-                    # openapi/v3/parameters.go: a header or cookie parameter is required iff the attribute is required and has NO default
-                    # (IsRequiredNoDefault); the server fills the default in, so for the design the absent value is valid as well
-                    sub = dict(sub, required=[])
                 subv = {name: v[name]} if name in v and v[name] is not None else {}
                 try:
                     at, vt = c04.enc_att(b.schema, sub, [subv]), c04.enc_val(b.schema, sub, subv)
@@ -569,6 +565,13 @@ def judge_design(c, b, drv, per_valid, cap):
                     # explains it: the contract forbids an input the server accepts
                     c.fail("c14/server-accepts-what-document-and-design-reject:" + kc,
                            "%s.%s [%s]: the server accepts a request that the design's validations and the document both reject: %s" % (s["name"], m["name"], label, v.get("request_err", "")[:300]),
+                           input=inp, design=b.design)
+                elif sp is not None and sp == doc_ok and not server_ok and label in ("raw/header-dropped", "raw/cookie-dropped") and any(
+                        l == label.split("/")[1].split("-")[0] and a not in (val or {}) and a in (b.schema.resolve(m["payload"]).get("required") or [])
+                        and b.schema.resolve(dict(b.schema.fields(m["payload"]))[a]).get("has_default") for a, l in locs.items()):
+                    c.fail("c14/doc-accepts-what-server-rejects:required-defaulted-header-or-cookie-absent",
+                           "%s.%s [%s]: the document lists the parameter as optional with a default (required AND defaulted attributes are documented with "
+                           "IsRequiredNoDefault), the server answers %s %s when it is absent" % (s["name"], m["name"], label, w.get("status"), (w.get("resp_body") or "")[:160]),
                            input=inp, design=b.design)
                 elif sp is not None and sp == doc_ok:
                     c.hist("attributed", "server deviates from the specification (C04): " + (("server accepts invalid:" + kc) if server_ok else ("server rejects valid:" + lc2)))
